@@ -221,7 +221,10 @@ func c14Compile(dir string) (cc *c14Compiled, err error) {
 	return cc, nil
 }
 
-const c14StepLimit = 3_000_000
+// generated programs stay far below this many VM instructions per call; after a few runaway calls (a
+// miscompiled loop) the limit drops so that a broken compiler does not stall the check
+var c14StepLimit int64 = 400_000
+var c14Runaway int
 
 // instructions executed by the last c14RunVM (the harness is single-threaded on the VM side)
 var c14LastSteps int64
@@ -252,6 +255,9 @@ func c14RunVM(cc *c14Compiled, off int, args []c14Val) (stack []stackitem.Item, 
 		msg := err.Error()
 		if steps >= c14StepLimit {
 			msg = "STEP LIMIT: " + msg
+			if c14Runaway++; c14Runaway == 8 {
+				c14StepLimit = 20_000
+			}
 		}
 		return nil, msg
 	}
